@@ -8,9 +8,9 @@ def run(chk):
     chk.rule = ("settled runs (playable tracks; a second family with some unplayable entries) in which get_next/previous/eot_tlid is asked right "
                 "before next()/previous()/about-to-finish and compared with the track that is current "
                 "after the notifications settled (all 16 mode combinations, duplicates, every position), "
-                "plus arbitrary schedules for the consume-off frame rule; non-trivial = at least two "
+                "plus arbitrary schedules for the consume-off frame rule and whole random passes (once per pass); non-trivial = at least two "
                 "track_playback_started events; distinct by op sequence")
-    core_check.run_core(chk, "C03", [("settled", 5), ("settledf", 2), ("schedule", 2), ("faults", 1)], ["Property_C03.v"])
+    core_check.run_core(chk, "C03", [("settled", 5), ("settledf", 2), ("schedule", 2), ("randompass", 2), ("faults", 1)], ["Property_C03.v"])
     if not chk.replay:
         # provider methods failing outside the modelled environment (monitor-only, real Core)
         import core_faulty
